@@ -1340,11 +1340,20 @@ _bucket_setstate(Bucket *self, PyObject *state)
         l++;
 
         COPY_KEY_FROM_ARG(self->keys[i], k, copied);
+        if (copied)
+        {
+            COPY_VALUE_FROM_ARG(self->values[i], v, copied);
+        }
         if (!copied)
+        {
+            /* self->len is still 0: give back what was taken so far */
+            while (--i >= 0)
+            {
+                DECREF_KEY(self->keys[i]);
+                DECREF_VALUE(self->values[i]);
+            }
             return -1;
-        COPY_VALUE_FROM_ARG(self->values[i], v, copied);
-        if (!copied)
-            return -1;
+        }
         INCREF_KEY(self->keys[i]);
         INCREF_VALUE(self->values[i]);
     }
